@@ -376,3 +376,129 @@ def _lex_count(m, i):
     if t.startswith("0") or t == "1" or len(t) > 6:
         return None, i
     return mk_count(int(t)), m.end()
+
+
+# ---------------------------------------------------------------- un-presentation (C13)
+# Three lexers that undo exactly the presentation mapping of each output format and nothing else.
+# They return the abstract presentation tokens of spec/Formula.tla (Render): lists of [r, t] with
+# r in Pre Sym Sub Sup Br Infix Plain Suf.  Anything they cannot place -> None (reported as a
+# mismatch by the caller, since the spec's token list is then not reproduced).
+_USUB = dict(zip("₀₁₂₃₄₅₆₇₈₉", "0123456789"))
+_USUP = dict(zip("⁰¹²³⁴⁵⁶⁷⁸⁹⁺⁻", "0123456789+-"))
+_GREEK_U = "αβγδεζηθικλμνξοπρστυφχψω"
+
+FORMATS = {
+    "latex": dict(
+        pre=dict([("^\\bullet ", ".")] + [("\\" + g + "-", g + "-") for g in GREEK if g not in ("epsilon", "omicron")]
+                 + [("\\varepsilon-", "epsilon-"), ("o-", "omicron-")]),
+        infix="\\cdot ", sub=("_{", "}"), sup=("^{", "}"), br={"\\{": "{", "\\}": "}"}),
+    "unicode": dict(
+        pre=dict([("⋅", ".")] + [(u + "-", g + "-") for g, u in zip(GREEK, _GREEK_U)]),
+        infix="·", sub=None, sup=None, br={}),
+    "html": dict(
+        pre=dict([("&sdot;", ".")] + [("&" + g + ";-", g + "-") for g in GREEK]),
+        infix="&sdot;", sub=("<sub>", "</sub>"), sup=("<sup>", "</sup>"), br={}),
+}
+
+
+def unpresent(s, fmt):
+    F = FORMATS[fmt]
+    toks = []
+    i = 0
+    for shown in sorted(F["pre"], key=len, reverse=True):
+        if s.startswith(shown):
+            toks.append(["Pre", F["pre"][shown]])
+            i = len(shown)
+            break
+    suf = None
+    for x in SUFFIXES:
+        if s.endswith(x) and len(s) - len(x) >= i:
+            suf = x
+            s = s[:len(s) - len(x)]
+            break
+    n = len(s)
+    while i < n:
+        ch = s[i]
+        m = None
+        if s.startswith(F["infix"], i):
+            toks.append(["Infix", ".."])
+            i += len(F["infix"])
+            continue
+        hit = False
+        for shown, plain in F["br"].items():
+            if s.startswith(shown, i):
+                toks.append(["Br", plain])
+                i += len(shown)
+                hit = True
+                break
+        if hit:
+            continue
+        if F["sub"] and s.startswith(F["sub"][0], i):
+            j = s.find(F["sub"][1], i)
+            if j < 0:
+                return None
+            toks.append(["Sub", s[i + len(F["sub"][0]):j]])
+            i = j + len(F["sub"][1])
+            continue
+        if F["sup"] and s.startswith(F["sup"][0], i):
+            j = s.find(F["sup"][1], i)
+            if j < 0:
+                return None
+            toks.append(["Sup", s[i + len(F["sup"][0]):j]])
+            i = j + len(F["sup"][1])
+            continue
+        if fmt == "unicode" and ch in _USUB:
+            # a subscript run may contain an ordinary '.' between subscript digits
+            j = i
+            out = ""
+            while j < n and (s[j] in _USUB or (s[j] == "." and j + 1 < n and s[j + 1] in _USUB and out)):
+                out += _USUB.get(s[j], ".")
+                j += 1
+            toks.append(["Sub", out])
+            i = j
+            continue
+        if fmt == "unicode" and ch in _USUP:
+            j = i
+            out = ""
+            while j < n and s[j] in _USUP:
+                out += _USUP[s[j]]
+                j += 1
+            toks.append(["Sup", out])
+            i = j
+            continue
+        if ch in "([{)]}":
+            toks.append(["Br", ch])
+            i += 1
+            continue
+        m = re.compile(r"[A-Z][a-z]*").match(s, i)
+        if m:
+            toks.append(["Sym", m.group(0)])
+            i = m.end()
+            continue
+        if ch == "e" and not toks:
+            toks.append(["Sym", "e"])
+            i += 1
+            continue
+        m = re.compile(r"[0-9]+|[*']+").match(s, i)
+        if m:
+            toks.append(["Plain", m.group(0)])
+            i = m.end()
+            continue
+        return None
+    if suf:
+        toks.append(["Suf", suf])
+    return toks
+
+
+def reassemble(ptoks):
+    """presentation tokens -> plain formula text (the inverse of the presentation mapping)."""
+    out = []
+    for r, t in ptoks:
+        if r == "Sup":
+            m = re.match(r"^(\d*)([+-])$", t)
+            if not m:
+                return None
+            out.append(m.group(2) + m.group(1))
+        else:
+            out.append(t)
+    return "".join(out)
